@@ -21,7 +21,7 @@ impl Property for C08 {
         "C08"
     }
     fn rule(&self) -> &'static str {
-        "Seeded struct worlds: 1-12 host structs nested through members / fixed arrays / runtime arrays and bound as uniform, storage, private or workgroup variables (some only reachable through nesting, some unused, some used by two variables), vertex input structs shared by 0-3 vertex entries (one doubling as storage element), an inter-stage struct (vertex result + fragment parameter), fragment-only input, fragment output, compute builtin input, function-local and unused structs, definitions in shuffled order; oracle = naga module evaluated per the statement (reachable from a module-scope variable, or entry parameter that is no entry result), cross-checked with the generator's role bookkeeping: the set of top-level `pub struct` items (minus the fixed helper structs) equals it and no name repeats."
+        "Seeded struct worlds: 1-12 host structs nested through members / fixed arrays / runtime arrays and bound as uniform, storage, private or workgroup variables (some only reachable through nesting, some unused, some used by two variables), vertex input structs shared by 0-3 vertex entries (one doubling as storage element), an inter-stage struct (vertex result + parameter of one or two fragment entries, the entry points declared in shuffled order so that a consumer may stand above its producer), host structs nesting a vertex input struct, fragment-only input, fragment output, compute builtin input, function-local and unused structs, definitions in shuffled order; oracle = naga module evaluated per the statement (reachable from a module-scope variable, or entry parameter that is no entry result), cross-checked with the generator's role bookkeeping: the set of top-level `pub struct` items (minus the fixed helper structs) equals it and no name repeats."
     }
 
     fn cases(&self, seed: u64, tier: Tier) -> Vec<Case> {
